@@ -79,6 +79,18 @@ def check(ctx):
     obp = Prov(ob)
     wr = [obp._rv(s_["rv"], 0, frozenset()) for bi, si, s_ in ob.stmts() if lib.place_fields(s_["lhs"]) and lib.place_fields(s_["lhs"])[-1][1] == "subgraph_complete"]
     oko = len(wr) == 1 and wr[0][0] == "bin" and wr[0][1] == "BitOr" and {("subgraph_complete" in show(wr[0][2])), ("subgraph_complete" in show(wr[0][3]))} == {True, False}
+    if not oko and wr:
+        # the short-circuit spelling `x = x || c` (or `if !x { x = c }` / `if c { x = true }`): every value written is either the
+        # constant true or the observed completeness, and writing is conditional on the field / the parameter only
+        vals = [w for w in wr]
+        flat = []
+        for w in vals:
+            flat += w[1] if w[0] == "phi" else [w]
+        only = all((x[0] == "const" and str(x[2]) == "1") or (x[0] == "param" and x[1] == "completeness") for x in flat)
+        brs = [b for b in lib.bool_branches(ob, obp)]
+        cond_ok = all(("subgraph_complete" in show(b.expr)) or ("completeness" in show(b.expr)) for b in brs) and bool(brs)
+        never_false = not any(x[0] == "const" and str(x[2]) == "0" for x in flat)
+        oko = only and cond_ok and never_false and any(x[0] == "param" or (x[0] == "const") for x in flat)
     ctx.require(oko, "R-OP", "fold-completeness:or", "subgraph_complete := subgraph_complete | completeness", "FoldGenerationObserver::observe_completeness assigns `%s`: the last generation alone decides whether the fold is complete" % ([show(w) for w in wr]))
 
     # update_ctx_states
